@@ -209,7 +209,8 @@ class HamiltonianChain(MarkovChain):
         )
 
     def finite_diff(self, t: ndarray) -> ndarray:
-        p = self.posterior(t) * self.inv_temp
+        # the gradient of the log-posterior itself: the leapfrog update applies the temperature
+        p = self.posterior(t)
         G = zeros(self.n_parameters)
         for i in range(self.n_parameters):
             # additive step, so that zero-valued coordinates can be perturbed
@@ -225,7 +226,7 @@ class HamiltonianChain(MarkovChain):
             t_probe = t.copy()
             t_probe[i] += dt
             dt = t_probe[i] - t[i]
-            G[i] = (self.posterior(t_probe) * self.inv_temp - p) / dt
+            G[i] = (self.posterior(t_probe) - p) / dt
         return G
 
     def get_last(self) -> ndarray:
